@@ -7,7 +7,7 @@ import collections
 import json
 import os
 
-from ..common import Report, main_wrapper, scratch, seed, run_tlc, MachineryError, tlc_failure_excerpt
+from ..common import Report, main_wrapper, scratch, eff_seed, run_tlc, MachineryError, tlc_failure_excerpt
 from .. import rangeclaims
 from .args import parse
 
@@ -19,7 +19,7 @@ def main():
     rep = Report("C13", a.tier, "model_checking")
     quick = a.tier == "quick"
     sel = (lambda m, p: a.only in p.name()) if a.only else None
-    recs = rangeclaims.run(MODULES, seed(), cands=6 if quick else 40, maxclaims=400 if quick else 4000, select=sel)
+    recs = rangeclaims.run(MODULES, eff_seed(), cands=6 if quick else 40, maxclaims=400 if quick else 4000, select=sel)
     claims = []
     seen = set()
     raw = 0
@@ -31,7 +31,7 @@ def main():
                 continue
             seen.add(key)
             claims.append(c)
-    gen, gen_errs = rangeclaims.gen_claims(seed(), 1500 if quick else 20000)
+    gen, gen_errs = rangeclaims.gen_claims(eff_seed(), 1500 if quick else 20000)
     for c in gen:
         c["prog"] = "generated"
     claims += gen
